@@ -84,7 +84,15 @@ class TrialBackend:
                 src_trial_id=checkpoint_trial_id, tgt_trial_id=trial_id
             )
         self.trial_ids.append(trial_id)
-        self._schedule(trial_id=trial_id, config=config)
+        try:
+            self._schedule(trial_id=trial_id, config=config)
+        except Exception:
+            # The trial could not be started, so it must not remain listed:
+            # ``stop_all`` (called when tuning ends, also after an error)
+            # queries all listed trials and would fail for this one, leaving
+            # the other trials running
+            self.trial_ids.pop()
+            raise
         now = datetime.now()
         trial = TrialResult(
             trial_id=trial_id,
